@@ -14,6 +14,8 @@
 #include "csg/src/libcsg/openbox.cc"
 #include "csg/src/libcsg/map.cc"
 #include "csg/src/libcsg/topologymap.cc"
+#include "csg/src/libcsg/topology.cc"
+#include "csg/src/libcsg/exclusionlist.cc"
 #undef private
 #undef protected
 using namespace votca::csg;
@@ -45,4 +47,17 @@ H long h_apply(long n, const double* w, const double* fw, const double* mass, co
   if (cg.HasVel()) for (int k = 0; k < 3; k++) out[4 + k] = cg.getVel()[k];
   if (cg.HasF()) for (int k = 0; k < 3; k++) out[7 + k] = cg.getF()[k];
   return 0;
+}
+
+// TopologyMap::Apply on two successive frames: the CG topology already carries the box of the previous frame (oldbox);
+// out: [0..8] = CG box after Apply, [9] = CG box type, [10] = atomistic box type, [11] = step, [12] = time
+H void h_topmap(const double* oldbox, const double* newbox, double step, double time, double* out) {
+  Topology in, cg;
+  cg.setBox(mk(oldbox));
+  in.setBox(mk(newbox)); in.setStep((votca::Index)step); in.setTime(time);
+  TopologyMap tm(&in, &cg);
+  tm.Apply();
+  const Eigen::Matrix3d& b = cg.getBox();
+  for (int i = 0; i < 3; i++) for (int j = 0; j < 3; j++) out[3 * j + i] = b(i, j);
+  out[9] = (double)cg.getBoxType(); out[10] = (double)in.getBoxType(); out[11] = (double)cg.getStep(); out[12] = cg.getTime();
 }
